@@ -3,6 +3,7 @@ Theorems: Props/C17.lean (group-level equations). Tie: the four adapter instruct
 adapter builders on random and edge scalars, judged on the implementation alone by independent
 arithmetic (Python integers mod L, PyNaCl point ops and Ed25519 verify) and compared with the model."""
 from __future__ import annotations
+import hashlib
 import nacl.bindings as nb
 from nacl.signing import SigningKey, VerifyKey
 from nacl.exceptions import BadSignatureError
@@ -123,6 +124,30 @@ def run(ctx: Ctx) -> Result:
         items = [] if f.get('stack', '-') in ('-', '?') else [bytes.fromhex(x) if x != 'e' else b'' for x in f['stack'].split(',')]
         if f['status'] != 'OK' or len(items) != 2 or not ref_verify(X, m, items[0] + items[1]):
             viol(f'DECRYPT_ADAPTER_SIG with integer flags {cfg2.mask:011b}', {'script': dc.hex(), 'cfg': cfg2.line(), 'message': m.hex(), 'key': X.hex()}, '(R+T, sa+t) on the stack, a valid signature', o)
+    # a tweak point that EQUALS the adapter's own nonce point (R depends on seed and message only, so anyone who has seen one adapter
+    # can ask for it): R + T is 2R, and the adapter is still not a signature
+    for it in range(ctx.n(8, 60)):
+        seed = V.rbytes(rng, 32); sk = SigningKey(seed); X = bytes(sk.verify_key); m = V.rbytes(rng, rng.choice([1, 20, 64]))
+        t = clamp(V.rbytes(rng, 32)); Tp = nb.crypto_scalarmult_ed25519_base_noclamp(t)
+        st, it1, o = run_s(P(seed) + P(m) + P(Tp) + op('MAKE_ADAPTER_SIG_PUBLIC'))
+        if st != 'OK' or len(it1) != 2: continue
+        R1 = it1[0]
+        mk2 = P(seed) + P(m) + P(R1) + op('MAKE_ADAPTER_SIG_PUBLIC')
+        st2, it2, o2 = run_s(mk2)
+        res.note_case(('T-equals-R', seed, m))
+        if st2 != 'OK' or len(it2) != 2:
+            viol('MAKE_ADAPTER_SIG_PUBLIC with the tweak point equal to the nonce point', {'script': mk2.hex()}, 'an adapter (R, sa)', o2); continue
+        Ra, sa2 = it2
+        if Ra != R1:
+            viol('the nonce point of the second adapter differs (R is a function of seed and message)', {'script': mk2.hex()}, R1.hex(), Ra.hex()); continue
+        if ref_verify(X, m, Ra + sa2):
+            viol('the adapter made for T = R verifies as a plain signature', {'script': mk2.hex(), 'message': m.hex(), 'key': X.hex()}, 'not a signature (the challenge is over R + T = 2R)', (Ra + sa2).hex())
+        twoR = nb.crypto_core_ed25519_add(R1, R1)
+        c_ = int.from_bytes(hashlib.sha512(twoR + X + m).digest(), 'little') % L
+        lhs = nb.crypto_scalarmult_ed25519_base_noclamp(sa2) if any(sa2) else None
+        rhs = nb.crypto_core_ed25519_add(R1, nb.crypto_scalarmult_ed25519_noclamp(c_.to_bytes(32, 'little'), X)) if c_ else R1
+        if lhs != rhs:
+            viol('the adapter made for T = R does not satisfy sa*G = R + H(2R || X || m)*X', {'script': mk2.hex(), 'message': m.hex(), 'key': X.hex()}, rhs.hex(), str(lhs and lhs.hex()))
     # degenerate tweak points (the neutral element, points of order 2 / 4 / 8): an adapter made or accepted for such a T would be
     # a plain signature (T = 0) or differ from one by a torsion point - neither instruction may produce / accept one
     small = ['0100000000000000000000000000000000000000000000000000000000000000', 'ecffffffffffffffffffffffffffffffffffffffffffffffffffffffffffffff7f',
